@@ -351,6 +351,60 @@ def gen_lookalike_union(rng: random.Random) -> dict:
     return {"nodes": nodes, "how": how, "qs": qs}
 
 
+def gen_lookalike_twins(rng: random.Random) -> dict:
+    """Two DIFFERENT sets with the same approximate key (min, max, residues modulo 32), each put through the SAME
+    operation with the same arguments, both results queried: an answer must depend on the operand itself, never on an
+    operand that merely compares equal (caches keyed by `==` / hash, here or in an earlier case of the same process)."""
+    lo = rng.choice([0, 8, 16, 3, 32])
+    span = 32 * rng.randint(2, 5)
+    mids = [lo + 32 * j for j in range(1, span // 32)]
+    ma = sorted(rng.sample(mids, rng.randint(0, min(2, len(mids)))))
+    mb = sorted(rng.sample(mids, rng.randint(0, min(2, len(mids)))))
+    if ma == mb:
+        mb = [m for m in mids if m not in ma][:1] or []
+        if ma == mb:
+            ma = mids[:1]
+    a = sorted({lo, lo + span} | set(ma))
+    b = sorted({lo, lo + span} | set(mb))
+    nodes: typing.List[list] = [["leaf", a], ["leaf", b]]
+    how = ["set", rng.choice(["set", "list"])]
+    ia, ib = 0, 1
+    if rng.random() < 0.4:  # make them operator-backed (memoised) rather than literal sets
+        nodes.append(["leaf", [rng.choice([0, 8, 32])]])
+        how.append("int")
+        c = len(nodes) - 1
+        nodes.append(["cat", [c, 0]]); how.append("op"); ia = len(nodes) - 1
+        nodes.append(["cat", [c, 1]]); how.append("op"); ib = len(nodes) - 1
+    kind = rng.choice(["rep", "rep", "rrep", "rrep", "pad", "cat", "uni"])
+    first, second = (ia, ib) if rng.random() < 0.5 else (ib, ia)
+    tops = []
+    if kind in ("rep", "rrep"):
+        k = rng.choice([2, 2, 3, 4])
+        for x in (first, second):
+            nodes.append([kind, x, k]); how.append(kind); tops.append(len(nodes) - 1)
+    elif kind == "pad":
+        al = rng.choice([64, 128, 96, 48])
+        for x in (first, second):
+            nodes.append(["pad", x, al]); how.append("pad"); tops.append(len(nodes) - 1)
+    else:
+        nodes.append(["leaf", sorted({rng.choice([0, 8, 16]), rng.choice([8, 40, 72])})]); how.append("set")
+        t = len(nodes) - 1
+        for x in (first, second):
+            nodes.append([kind, [x, t] if rng.random() < 0.5 else [t, x]]); how.append(rng.choice(["op", "static"])); tops.append(len(nodes) - 1)
+    qs: typing.List[list] = []
+    memo: dict = {}
+    for i in tops:
+        for d in (64, 128, rng.choice([3, 5, 7, 9, 48, 96, 160])):
+            if _cost(nodes, i, d, memo) <= MOD_BUDGET:
+                qs.append([rng.choice(["mod", "mod", "aligned"]), i, d])
+        if expand_cost(nodes, i, {}) <= EXPAND_BUDGET and o_den(nodes, i, 400, {}) is not None:
+            qs.append([rng.choice(["expand", "len"]), i])
+        qs.append([rng.choice(["max", "min", "fixed"]), i])
+    if rng.random() < 0.5:
+        rng.shuffle(qs)
+    return {"nodes": nodes, "how": how, "qs": qs}
+
+
 def gen_case(rng: random.Random, prop: str) -> dict:
     x = rng.random()
     if x < 0.3:
@@ -359,6 +413,10 @@ def gen_case(rng: random.Random, prop: str) -> dict:
             return c
     elif x < 0.38:
         c = gen_lookalike_union(rng)
+        if c["qs"]:
+            return c
+    elif x < 0.46:
+        c = gen_lookalike_twins(rng)
         if c["qs"]:
             return c
     nodes: typing.List[list] = []
